@@ -55,6 +55,13 @@ def cli_pre(ctx):
             # a fictitious weightless material (rigid links, ties) on one bar
             s.mats["weightless"] = (Fr(0), Fr(21000000), Fr(8100000), Fr("0.3"), Fr(27500), Fr(43000))
             s.bars[i // 2 % len(s.bars)]["mat"] = "weightless"
+        if i % 2 == 1 and s.bars:
+            # loads that amount to nothing in total are loads all the same: a linear load from -q to +q (a couple), a zero-valued
+            # point load used as a marker
+            b = s.bars[i // 2 % len(s.bars)]["id"]
+            s.loads = [l for l in s.loads if l["bar"] != b]
+            s.loads.append({"kind": "d", "term": "fy", "local": True, "bar": b, "t0": Fr("0.25"), "v0": Fr(-40), "t1": Fr("0.75"), "v1": Fr(40)})
+            s.loads.append({"kind": "c", "term": "fx", "local": True, "bar": b, "t": Fr("0.4375"), "v": Fr(0)})
         structs.append(s)
     runs = bad = 0
     for s in structs:
